@@ -662,7 +662,57 @@ func nonNegValue(v ssa.Value, seen map[ssa.Value]bool) bool {
 			return nonNegValue(x.X, seen) && nonNegValue(x.Y, seen)
 		}
 	case *ssa.Phi:
-		return isCountingPhi(x, seen)
+		again := seen[x]
+		if isCountingPhi(x, seen) {
+			return true
+		}
+		if again {
+			return false
+		}
+		delete(seen, x)
+		// a clamp: `if v < 0 { v = 0 }` - every edge is a non-negative value, or carries v along the edge where
+		// `v < 0` was just found false (`v >= 0` true)
+		if seen[x] {
+			return false
+		}
+		seen[x] = true
+		for i, e := range x.Edges {
+			if i >= len(x.Block().Preds) {
+				return false
+			}
+			if k, ok := an.IntConst(e); ok {
+				if k < 0 {
+					return false
+				}
+				continue
+			}
+			p := x.Block().Preds[i]
+			okEdge := false
+			facts := an.BranchFacts(p)
+			if len(p.Instrs) > 0 {
+				if iff, isIf := p.Instrs[len(p.Instrs)-1].(*ssa.If); isIf && p.Succs[0] != p.Succs[1] {
+					facts = append(facts, an.EdgeCond{Cond: iff.Cond, True: p.Succs[0] == x.Block()})
+				}
+			}
+			for _, f := range facts {
+				cond, neg := an.Not(f.Cond)
+				bo, isB := cond.(*ssa.BinOp)
+				if !isB {
+					continue
+				}
+				truth := f.True != neg
+				kY, isKY := an.IntConst(bo.Y)
+				if an.Strip(bo.X) == an.Strip(e) && isKY {
+					if bo.Op == token.LSS && kY <= 0 && !truth || bo.Op == token.GEQ && kY >= 0 && truth || bo.Op == token.GTR && kY >= -1 && truth || bo.Op == token.LEQ && kY < 0 && !truth {
+						okEdge = true
+					}
+				}
+			}
+			if !okEdge && !nonNegValue(e, seen) {
+				return false
+			}
+		}
+		return true
 	}
 	return false
 }
@@ -2015,6 +2065,27 @@ func (r *pfRun) checkInstr(in ssa.Instruction, st *pfState) {
 		r.checkIndex(in, x.X, x.Index, st)
 	case *ssa.Slice:
 		r.checkSlice(x, st)
+	case *ssa.BinOp:
+		if (x.Op == token.QUO || x.Op == token.REM) && isIntType(x.Type()) {
+			if k, ok := an.IntConst(x.Y); ok && k != 0 {
+				return
+			}
+			e.site(r.fn, in, "div", an.Path(x.Y), false, "integer division by a value not shown to be non-zero", r.ctx)
+		}
+		switch x.Op {
+		case token.SHL, token.SHR:
+			// a shift by a negative count is a run-time panic; only signed, non-constant counts can be negative
+			if b, ok := x.Y.Type().Underlying().(*types.Basic); ok && b.Info()&types.IsUnsigned == 0 {
+				if _, isK := an.IntConst(x.Y); !isK {
+					what := "shift count " + an.Path(x.Y)
+					if nonNegValue(x.Y, nil) || r.linNonNeg(st, r.evalInt(x.Y, st)) {
+						e.site(r.fn, in, "shift", what, true, "the count is never negative", r.ctx)
+					} else {
+						e.site(r.fn, in, "shift", what, false, "shift by a signed count that may be negative: Go panics with `negative shift amount`", r.ctx)
+					}
+				}
+			}
+		}
 	case *ssa.Panic:
 		if s, ok := an.StrConst(x.X); ok && s == "blocking select matched no case" {
 			return
@@ -2029,13 +2100,6 @@ func (r *pfRun) checkInstr(in ssa.Instruction, st *pfState) {
 			}
 		}
 		e.site(r.fn, in, "makeslice", an.Path(x.Len)+","+an.Path(x.Cap), true, "sizes are non-negative (constants, len(), unsigned or bounded below by a dominating length test)", r.ctx)
-	case *ssa.BinOp:
-		if (x.Op == token.QUO || x.Op == token.REM) && isIntType(x.Type()) {
-			if k, ok := an.IntConst(x.Y); ok && k != 0 {
-				return
-			}
-			e.site(r.fn, in, "div", an.Path(x.Y), false, "integer division by a value not shown to be non-zero", r.ctx)
-		}
 	case *ssa.UnOp:
 		if x.Op == token.MUL {
 			r.checkDeref(in, x.X, st)
